@@ -170,7 +170,7 @@ const c05HolderSubject = "holder"
 func c05NewFixture(s *sched.S) *c05Fixture {
 	fx := &c05Fixture{rep: &c05Reporter{}}
 	fx.ctrl = gomock.NewController(fx.rep)
-	fx.st = &c05Store{inner: go_cache.NewGoCache(gocacheclient.New(15*time.Minute, time.Hour)), s: s}
+	fx.st = &c05Store{inner: go_cache.NewGoCache(gocacheclient.New(15*time.Minute, 0 /* no janitor goroutine */)), s: s}
 	db := storage.NewVerifSessionDatabase(fx.st)
 
 	fx.auth = auth.NewMockAuthenticationServices(fx.ctrl)
@@ -231,11 +231,18 @@ type c05Kind struct {
 }
 
 var c05Kinds = map[string]*c05Kind{}
-var c05KindOrder []string
+
+// c05KindOrder is the fixed order of enumeration (independent of init order).
+var c05KindOrder = []string{"code", "s2s-nonce", "dpop-jti", "openid4vp-nonce", "request-object-get", "request-object-post", "user-redirect-token"}
 
 func c05Register(k *c05Kind) {
-	c05Kinds[k.name] = k
-	c05KindOrder = append(c05KindOrder, k.name)
+	for _, n := range c05KindOrder {
+		if n == k.name {
+			c05Kinds[k.name] = k
+			return
+		}
+	}
+	panic("kind not listed in c05KindOrder: " + k.name)
 }
 
 func c05Err(err error) string {
@@ -402,18 +409,14 @@ func c05Run(x *h.Ctx, c c05Case) {
 	if !defective {
 		x.Class("roles:all-ok")
 	}
-	first := make([]int, n) // index of first/last step per request
-	last := make([]int, n)
-	cnt := make([]int, n)
+	first := make([]int, n) // index of the first step per request
 	for i := range first {
-		first[i], last[i] = -1, -1
+		first[i] = -1
 	}
 	for i, st := range tr.Steps {
 		if first[st.Actor] < 0 {
 			first[st.Actor] = i
 		}
-		last[st.Actor] = i
-		cnt[st.Actor]++
 	}
 	sw := tr.Switches()
 	if sw >= 1 {
@@ -470,18 +473,19 @@ func c05Run(x *h.Ctx, c c05Case) {
 	if succ > 1 {
 		c05Violate(x, "double-spend:"+c.Kind, "%d of %d requests presenting the same %s succeeded\n%s", succ, n, c.Kind, describe())
 	}
-	// dead after a failed attempt: a defective request that had completely finished (its last store operation ran, so its
-	// error response was produced) before a correct request performed its first store operation must have killed the code.
+	// dead after a failed attempt: a defective request that had returned its error response before a correct request
+	// performed its first store operation must have killed the code.
 	for d := 0; d < n; d++ {
 		if c.Roles[d] == "ok" || out[d].OK {
 			continue
 		}
 		for g := 0; g < n; g++ {
-			if c.Roles[g] != "ok" || !out[g].OK {
+			// FinishedAt[d] = number of steps executed when request d had returned
+			if c.Roles[g] != "ok" || first[g] < 0 || len(tr.FinishedAt) != n || first[g] < tr.FinishedAt[d] {
 				continue
 			}
-			if last[d] >= 0 && first[g] > last[d] {
-				x.Class("failed-attempt-strictly-before-correct")
+			x.Class("correct-request-starts-after-failed-one-returned")
+			if out[g].OK {
 				c05Violate(x, "alive-after-failed-attempt:"+c.Kind+":"+c.Roles[d], "request %d succeeded although request %d (%s) had failed before it started\n%s", g, d, c.Roles[d], describe())
 			}
 		}
